@@ -642,6 +642,14 @@ impl<'c, KD: Kind, const N: usize> MapEng<'c, KD, N> {
                     if let Ok(out2) = mmv_base::fmtutil::fmt_debug_flags::<KD>(cx, &slot.c.m, spec) {
                         cx.chk(P19, out2 == want2, "container-format-flags", || format!("Debug with {}: rendered {out2:?}, the standard map rendering of the same entries is {want2:?}", mmv_base::fmtutil::FLAG_NAMES[spec]));
                     }
+                    // Display under width / fill / sign / precision options: the one layout, every
+                    // entry rendered the same way (with the options or plainly)
+                    let dspec = (b as usize / mmv_base::fmtutil::NFLAGS) % mmv_base::fmtutil::NDSPEC;
+                    let ks: Vec<(String, String)> = real.iter().map(|(k, _)| (mmv_base::fmtutil::ref_display_spec(k, dspec), tl::outside(|| format!("{k}")))).collect();
+                    let vs: Vec<(String, String)> = real.iter().map(|(_, v)| (mmv_base::fmtutil::ref_display_spec(v, dspec), tl::outside(|| format!("{v}")))).collect();
+                    if let Ok(out3) = mmv_base::fmtutil::fmt_display_spec::<KD>(cx, &slot.c.m, dspec) {
+                        cx.chk(P19, mmv_base::fmtutil::display_spec_accepts(&out3, &ks, Some(&vs)), "display-options", || format!("Display with {}: rendered {out3:?}; entries rendered with the options / plainly: {:?} / {:?}", mmv_base::fmtutil::DSPEC_NAMES[dspec], ks.iter().zip(vs.iter()).map(|(k, v)| format!("{}: {}", k.0, v.0)).collect::<Vec<_>>(), ks.iter().zip(vs.iter()).map(|(k, v)| format!("{}: {}", k.1, v.1)).collect::<Vec<_>>()));
+                    }
                     tl::outside(|| drop(real));
                 }
                 Err(p) => fault = unexpected(cx, false, P19, &p),
